@@ -903,26 +903,31 @@ def rule_validator_entry(ctx, rep):
     rep.rule(R, 'text2digits interpreted with the group interpreter as boundary, for each of its possible answers: an empty result is '
                 'reported as an error (never formatted), a number is rendered by format_and_value of that same builder, an error is passed '
                 'on unchanged; the words handed over are the lower-cased text split on Unicode whitespace')
-    texts = [('', []), ('   ', []), ('Twenty One', ['twenty', 'one']), (' \tTWENTY  one\n', ['twenty', 'one']), ('twenty\u00a0one\u2009\u3000two', ['twenty', 'one', 'two']), ('ÉTÉ x', ['été', 'x']), ('a-b', ['a-b'])]
+    # (text, words the group interpreter must receive, which clause the text exercises)
+    texts = [('', [], 'plain'), ('   ', [], 'ws'), ('twenty one', ['twenty', 'one'], 'plain'), ('Twenty ONE', ['twenty', 'one'], 'case'),
+             ('ÉTÉ x', ['été', 'x'], 'case'), (' \ttwenty  one\n', ['twenty', 'one'], 'ws'),
+             ('twenty\u00a0one\u2009\u3000two', ['twenty', 'one', 'two'], 'ws'), ('a-b', ['a-b'], 'plain')]
     for answer in ('empty', 'number', 'ordinal', 'NaN', 'Overlap', 'Incomplete', 'Frozen'):
-        for text, words in texts:
-            ent = '%s|%r' % (answer, text)
+        for text, words, clause in texts:
             env = _ValidatorEnv(answer)
             vm = VM(ctx.facts, env)
+            ent = '%s|%r' % (answer, text)
             try:
                 r = vm.run('word_to_digit::text2digits', [text, env.lang])
             except Panic as e:
-                rep.violation(R, ent, 'text2digits(%r) reaches a panic site when the group interpreter answers %s: %s' % (text, answer, e))
+                rep.violation(R, 'result|' + ent, 'text2digits(%r) reaches a panic site when the group interpreter answers %s: %s' % (text, answer, e))
                 continue
             except Unsupported as e:
-                rep.anchor(R, ent, 'cannot interpret text2digits: %s' % e)
+                rep.anchor(R, 'result|' + ent, 'cannot interpret text2digits: %s' % e)
                 continue
             got = (r.variant, vm.deref(r.payload[0]))
             got = (got[0], got[1].variant if hasattr(got[1], 'variant') else got[1])
             want = {'empty': ('Err', 'NaN'), 'number': ('Ok', '21'), 'ordinal': ('Ok', '1st')}.get(answer, ('Err', answer))
-            ok = got == want and env.words == words
-            rep.check(ok, R, ent, '%s -> %s' % (answer, want), 'text2digits(%r) with the group interpreter answering %s gives %s (expected %s); words handed over: %s (expected %s)' % (
-                text, answer, got, want, env.words, words))
+            rep.check(got == want, R, 'result|' + ent, '%s -> %s' % (answer, want),
+                      'text2digits(%r) with the group interpreter answering %s gives %s, expected %s' % (text, answer, got, want))
+            if answer == 'number':
+                rep.check(env.words == words, R, 'words|%s|%r' % (clause, text), 'words handed over: %s' % words,
+                          'text2digits(%r) hands the words %s to the group interpreter, expected %s (lower-cased text split on Unicode whitespace)' % (text, env.words, words))
 
 
 def _validate(facts, words):
